@@ -356,6 +356,103 @@ theorem member_iff (b : Builder) (e : Ep) :
       · exact Or.inl rfl
       · exact Or.inr (h8 hb)
 
+/-- **The membership clause of the property, written from its text** (not from the builder's code):
+    "the endpoints ... for that service and port that match the subset labels and are healthy (or
+    explicitly allowed unhealthy), discoverable from and visible to that proxy". -/
+def memberSpec (b : Builder) (e : Ep) : Prop :=
+  -- for that port
+  e.port = b.portName ∧
+  -- with a usable first address: empty (a gateway will stand in), a unix socket (port 0) or an IP
+  (∃ a rest, e.addrs = a :: rest ∧ (a = "" ∨ e.eport = 0 ∨ validIP a = true)) ∧
+  -- matching the subset labels
+  (∀ kv ∈ b.subset, e.labels.lookup kv.1 = some kv.2) ∧
+  -- healthy, or unhealthy where that is allowed; never terminating; draining only for
+  -- persistent-session services
+  (e.health = unHealthy → b.unhealthyOk = true) ∧
+  e.health ≠ 4 ∧
+  ((e.health = 3 ∨ ∃ v, e.labels.lookup drainingLabel = some v ∧ v ≠ "") → b.persistent = true) ∧
+  -- discoverable from the proxy
+  (e.disc = 2 → e.cluster = "" ∨ b.proxyCluster = "" ∨ e.cluster = b.proxyCluster) ∧
+  -- visible to the proxy (its requested network view)
+  (∀ nets, b.view = some nets → e.net = "" ∨ e.net ∈ nets) ∧
+  -- inside the proxy's cluster / on its node for cluster-local / node-local services
+  (b.clusterLocal = true → b.proxyCluster = e.cluster) ∧
+  (b.nodeLocal = true → e.node = b.proxyNode)
+
+theorem exists_cons_iff {a0 : String} {t : List String} {P : String → Prop} :
+    (∃ a rest, a0 :: t = a :: rest ∧ P a) ↔ P a0 := by
+  constructor
+  · rintro ⟨a, rest, h, hp⟩; cases h; exact hp
+  · intro h; exact ⟨a0, t, rfl, h⟩
+
+theorem portFilter_true_iff (b : Builder) (e : Ep) :
+    portFilter b e = some true ↔
+      e.port = b.portName ∧
+      (∃ a rest, e.addrs = a :: rest ∧ (a = "" ∨ e.eport = 0 ∨ validIP a = true)) ∧
+      (∀ kv ∈ b.subset, e.labels.lookup kv.1 = some kv.2) := by
+  unfold portFilter
+  by_cases hp : b.portName = e.port
+  · cases ha : e.addrs with
+    | nil => simp [hp]
+    | cons a t =>
+      rw [exists_cons_iff]
+      simp only [hp, ne_eq, not_true_eq_false, if_false, true_and]
+      by_cases h1 : a = ""
+      · subst h1
+        simp [subsetOf]
+      · by_cases h2 : e.eport = 0
+        · simp [h1, h2, subsetOf]
+        · cases hv : validIP a
+          · simp [h1, h2]
+          · simp [h1, h2, subsetOf]
+  · have : ¬ e.port = b.portName := fun h => hp h.symm
+    simp [hp, this]
+
+theorem visible_iff (b : Builder) (e : Ep) :
+    visible b e = true ↔ ∀ nets, b.view = some nets → e.net = "" ∨ e.net ∈ nets := by
+  unfold visible
+  cases hv : b.view with
+  | none => simp
+  | some nets =>
+    simp only [Bool.or_eq_true, List.contains_iff_mem, beq_iff_eq, Option.some.injEq, forall_eq']
+    exact Or.comm
+
+theorem discoverable_iff (b : Builder) (e : Ep) :
+    discoverable b e = true ↔ (e.disc = 2 → e.cluster = "" ∨ b.proxyCluster = "" ∨ e.cluster = b.proxyCluster) := by
+  unfold discoverable sameOrEmpty
+  by_cases hd : e.disc = 2 <;> simp [hd, or_assoc]
+
+theorem draining_iff (e : Ep) :
+    draining e = true ↔ (e.health = 3 ∨ ∃ v, e.labels.lookup drainingLabel = some v ∧ v ≠ "") := by
+  unfold draining
+  cases hl : e.labels.lookup drainingLabel with
+  | none => simp
+  | some v => simp
+
+/-- **`member` is the property's membership clause**: the predicate the builder implements
+    (`portFilter` and `filterIstioEndpoint`) is equivalent to `memberSpec`. -/
+theorem member_eq_spec (b : Builder) (e : Ep) : member b e = true ↔ memberSpec b e := by
+  rw [member_iff, portFilter_true_iff, visible_iff, discoverable_iff, draining_iff]
+  unfold memberSpec
+  constructor
+  · rintro ⟨⟨h1, h2, h3⟩, h4, h5, h6, h7, _, h9, h10, h11⟩
+    exact ⟨h1, h2, h3, h9, h10, h11, h7, h5, h6, h4⟩
+  · rintro ⟨h1, h2, h3, h9, h10, h11, h7, h5, h6, h4⟩
+    refine ⟨⟨h1, h2, h3⟩, h4, h5, h6, h7, ?_, h9, h10, h11⟩
+    obtain ⟨a, rest, ha, _⟩ := h2
+    rw [ha]; simp
+
+/-- `membership_exact` in terms of the specification. -/
+theorem membership_exact_spec (b : Builder) (ss : ShardSet)
+    (h : ∀ e ∈ readEndpoints b ss, e.port = b.portName → e.addrs ≠ []) :
+    ∃ gs, buildCLA b (some ss) = some gs ∧
+      (∀ e, e ∈ gs.flatMap (·.eps) ↔ e ∈ readEndpoints b ss ∧ memberSpec b e) ∧
+      (∀ e, (gs.flatMap (·.eps)).count e = ((readEndpoints b ss).filter (member b)).count e) := by
+  obtain ⟨gs, hgs, hperm⟩ := membership_exact b ss h
+  refine ⟨gs, hgs, ?_, fun e => hperm.count_eq e⟩
+  intro e
+  rw [hperm.mem_iff, List.mem_filter, member_eq_spec]
+
 /-- Bridge to `pushType_sound`: an endpoint the builder serves is one the index considers worth a
     push (`pushable`), provided the builder's "unhealthy endpoints allowed" agrees with the
     endpoint's `SendUnhealthyEndpoints` flag (both are derived from the service by the registries).
